@@ -208,7 +208,7 @@ func (a *Act) havocAll(st *State) {
 	}
 	sort.Strings(names)
 	for _, n := range names {
-		st.heaps[n] = u.D.Fresh(n, u.heapSort[n])
+		st.heaps[n] = u.FreshHeap(n, u.heapSort[n])
 	}
 	na := u.D.Fresh("alloc", "Int")
 	u.Fact(app(">=", na, st.alloc))
@@ -546,7 +546,7 @@ func (a *Act) sortCall(st *State, callee *ssa.Function, com *ssa.CallCommon, pos
 	et := types.Unalias(sv.Type()).Underlying().(*types.Slice).Elem()
 	for _, lh := range a.elemHeaps(et) {
 		old := st.heap(lh.name, lh.sort)
-		nh := a.u.D.Fresh(lh.name, lh.sort)
+		nh := a.u.FreshHeap(lh.name, lh.sort)
 		a.u.Fact(fmt.Sprintf("(forall ((r Ref)) (! (=> (or (= (sarr %s) nil) (not (= (rid r) (rid (sarr %s))))) (= (select %s r) (select %s r))) :pattern ((select %s r))))", s, s, nh, old, nh))
 		st.setHeap(lh.name, lh.sort, nh)
 	}
